@@ -102,7 +102,9 @@ impl StrategyPlanner {
             if let Ok(dest_meta) = std::fs::symlink_metadata(&dest_path) {
                 let action = if !self.follow_symlinks
                     && dest_meta.file_type().is_symlink()
-                    && std::fs::read_link(&dest_path).ok() == source.symlink_target
+                    // (the target TEXT: as paths `t` and `t/` compare equal)
+                    && std::fs::read_link(&dest_path).ok().map(std::path::PathBuf::into_os_string)
+                        == source.symlink_target.clone().map(std::path::PathBuf::into_os_string)
                 {
                     SyncAction::Skip
                 } else if self.follow_symlinks && self.followed_copy_is_current(source, &dest_meta) {
